@@ -580,8 +580,12 @@ class PE(object):
       if fn is None:
         # external base (tf.Module, ...) : no-op callable
         if name in ("__init__",):
+          # the object under construction, for rules that model the effect
+          # of an external base constructor (ext_overrides)
+          self.external_super_self = obj.obj
           return Ext("<external-super>.__init__")
         if getattr(self, "opaque_ext", False):
+          self.external_super_self = obj.obj
           return Ext("super." + name)
         raise PyRaise("AttributeError", "super() has no attribute %s" % name)
       f = Func(fn, owner.module, [], owner.name + "." + name, obj.obj, owner)
@@ -616,7 +620,7 @@ class PE(object):
       if name == "rank" or name == "ndims":
         return len(obj.dims)
       return BoundPrim(obj, name)
-    if isinstance(obj, (list, dict, str, tuple)):
+    if isinstance(obj, (list, dict, str, tuple)) and name != "__class__":
       return BoundPrim(obj, name)
     if hasattr(obj, "gram_op") or hasattr(obj, "gram_method"):
       return BoundPrim(obj, name)
@@ -625,6 +629,11 @@ class PE(object):
     if isinstance(obj, (int, Fraction)):
       if name == "numpy":
         return BoundPrim(obj, name)
+    if name == "__class__" and (obj is None or isinstance(
+        obj, (bool, int, Fraction, float, str, list, tuple, dict))):
+      tn = "NoneType" if obj is None else (
+          "float" if isinstance(obj, Fraction) else type(obj).__name__)
+      return Mock("class", {"__name__": tn})
     if obj is None:
       raise PyRaise("AttributeError", "None has no attribute %s" % name)
     self.err("attribute %s of %r" % (name, obj))
@@ -991,6 +1000,11 @@ class PE(object):
       if isinstance(a, str) and isinstance(b, str):
         return a + b
       if isinstance(a, str) or isinstance(b, str):
+        # json.dumps(...) is modelled by a stand-in object; its text is only
+        # ever concatenated into log messages
+        js = lambda v: isinstance(v, Mock) and v.name == "json"
+        if js(a) or js(b):
+          return ("<json>" if js(a) else a) + ("<json>" if js(b) else b)
         raise PyRaise("TypeError", "str + non-str")
       if isinstance(a, list) and isinstance(b, list):
         return a + b
@@ -1269,6 +1283,26 @@ class PE(object):
       if n == "extend":
         r.extend(self.iterate(args[0]))
         return None
+      # sets are modelled by lists without duplicates
+      if n == "add":
+        if not any(x is args[0] or (type(x) is type(args[0]) and
+                                    isinstance(x, (str, int, Fraction, tuple))
+                                    and x == args[0]) for x in r):
+          r.append(args[0])
+        return None
+      if n == "discard":
+        for i, x in enumerate(r):
+          if x is args[0] or (isinstance(x, (str, int, Fraction, tuple)) and
+                              type(x) is type(args[0]) and x == args[0]):
+            del r[i]
+            break
+        return None
+      if n == "update":
+        for e in self.iterate(args[0]):
+          self.call_method_of(r, "add", [e]) if hasattr(
+              self, "call_method_of") else (
+                  r.append(e) if e not in r else None)
+        return None
       if n == "copy":
         return list(r)
       if n == "insert":
@@ -1314,6 +1348,11 @@ class PE(object):
     ov = getattr(self, "ext_overrides", None)
     if ov and name in ov:
       return ov[name](self, args, kwargs)
+    if ov:
+      # "*.suffix" entries match any external callable with that last name
+      suf = "*." + name.rsplit(".", 1)[-1]
+      if suf in ov:
+        return ov[suf](self, args, kwargs)
     from . import prims
     return prims.call(self, name, args, kwargs, node)
 
